@@ -106,7 +106,7 @@ func StartServer(bp *coremain.BP, args *Args) (*HttpServer, error) {
 		Handler:        mux,
 		ReadTimeout:    time.Second,
 		IdleTimeout:    time.Duration(args.IdleTimeout) * time.Second,
-		MaxHeaderBytes: 512,
+		MaxHeaderBytes: 4096, // a DoH GET carries the (base64) query in the request line
 	}
 	if err := http2.ConfigureServer(hs, &http2.Server{
 		MaxReadFrameSize:             16 * 1024,
